@@ -3,7 +3,9 @@
  * Built with ThreadSanitizer (variant "tsan"); a TSan report aborts the case with exit code 96.
  *
  * case: evsys=<epoll|poll|select> threads=<n> ops=<n per thread> seed=<n> yield=<0|1>|
- * output: "<k> R issued=<n> cbs=<n> dup=<n> missing=<n> waitempty=<rc>:<outstanding-after> late=<0|1>"
+ * output: "<k> R issued=<n> cbs=<n> dup=<n> missing=<n> waitempty=<rc>:<outstanding-after> late=<0|1> lostwake=<n>"
+ *   lostwake:    number of the additional concurrent waiter threads (waiters=<n>, default 3) that
+ *                were not released with ARES_SUCCESS although the queue drained
  *   dup/missing: requests whose callback fired more than once / never (before destroy returned)
  *   waitempty:   ares_queue_wait_empty() result and the number of requests still outstanding
  *                when it returned success (must be 0)
@@ -131,6 +133,17 @@ extern void (*cares_verif_yield_fn)(void);
 static void yield_cb(void) { sched_yield(); }
 #endif
 
+static int          g_waiters = 3;
+static volatile int g_wrc[8];
+static volatile int g_wout[8];
+static void *waiter_main(void *arg)
+{
+  size_t i = (size_t)arg;
+  g_wrc[i]  = (int)ares_queue_wait_empty(g_channel, 5000);
+  g_wout[i] = g_outstanding;
+  return NULL;
+}
+
 static void *client_main(void *arg)
 {
   unsigned long long x = (unsigned long long)(size_t)arg * 0x9E3779B97F4A7C15ULL + 88172645463325252ULL;
@@ -189,7 +202,7 @@ static void run_case(long k, char *line)
   pthread_t           thr[16];
   char                csv[64];
   ares_status_t       wrc;
-  int                 out_after, late = 0;
+  int                 out_after, late = 0, lostwake = 0;
   char               *bar = strchr(line, '|');
   if (bar) *bar = 0;
   g_ops = 50; g_yield = 0;
@@ -203,6 +216,7 @@ static void run_case(long k, char *line)
     } else if (!strncmp(tokp, "threads=", 8)) nthreads = atoi(tokp + 8);
     else if (!strncmp(tokp, "ops=", 4)) g_ops = atoi(tokp + 4);
     else if (!strncmp(tokp, "yield=", 6)) g_yield = atoi(tokp + 6);
+    else if (!strncmp(tokp, "waiters=", 8)) g_waiters = atoi(tokp + 8);
   }
   if (nthreads < 1) nthreads = 1;
   if (nthreads > 16) nthreads = 16;
@@ -219,10 +233,21 @@ static void run_case(long k, char *line)
   ares_set_servers_ports_csv(g_channel, csv);
   for (i = 0; i < nthreads; i++) pthread_create(&thr[i], NULL, client_main, (void *)(size_t)(k * 131 + i + 1));
   for (i = 0; i < nthreads; i++) pthread_join(thr[i], NULL);
-  /* all requests submitted: wait for the queue to drain (budget: 2 tries of >= 250 ms, doubled) */
-  wrc       = ares_queue_wait_empty(g_channel, 5000);
-  out_after = g_outstanding;
-  if (wrc != ARES_SUCCESS) late = 1;
+  /* all requests submitted: several threads wait for the queue to drain at the same time
+   * (budget: 2 tries of >= 250 ms, doubled); every one of them must be released */
+  {
+    pthread_t wthr[8];
+    int       nw = g_waiters < 0 ? 0 : (g_waiters > 8 ? 8 : g_waiters);
+    for (i = 0; i < nw; i++) { g_wrc[i] = -1; pthread_create(&wthr[i], NULL, waiter_main, (void *)(size_t)i); }
+    wrc       = ares_queue_wait_empty(g_channel, 5000);
+    out_after = g_outstanding;
+    if (wrc != ARES_SUCCESS) late = 1;
+    for (i = 0; i < nw; i++) pthread_join(wthr[i], NULL);
+    for (i = 0; i < nw; i++) {
+      if (g_wrc[i] != ARES_SUCCESS) lostwake++;
+      if (g_wrc[i] == ARES_SUCCESS && g_wout[i] != 0) { wrc = ARES_SUCCESS; out_after = g_wout[i]; }
+    }
+  }
   ares_destroy(g_channel);
   n = nreq < MAXREQ ? nreq : MAXREQ;
   for (i = 0; i < n; i++) {
@@ -230,7 +255,7 @@ static void run_case(long k, char *line)
     if (reqs[i].ncb > 1) dup++;
     if (reqs[i].ncb == 0) missing++;
   }
-  printf("%ld R issued=%d cbs=%d dup=%d missing=%d waitempty=%d:%d late=%d\n", k, n, cbs, dup, missing, (int)wrc, wrc == ARES_SUCCESS ? out_after : 0, late);
+  printf("%ld R issued=%d cbs=%d dup=%d missing=%d waitempty=%d:%d late=%d lostwake=%d\n", k, n, cbs, dup, missing, (int)wrc, wrc == ARES_SUCCESS ? out_after : 0, late, lostwake);
 }
 
 int main(int argc, char **argv)
